@@ -121,6 +121,24 @@ def learned_stream(rs, tier):
                              min_rows_slice=cfg["min_rows"], min_cols_slice=1, split_rows_kwargs=dict(n=cfg["rows_n"]),
                              random_state=int(rs.randint(2 ** 31 - 1)), verbose=False), X.shape[1], None
         out.append(("learnspn", cfg, f, False))
+    # a user-supplied row splitter (the documented extension point: any callable) whose label set has GAPS, e.g. {0, 2, 5}: what
+    # some clusterers do on their own when a cluster ends up empty, here on every split
+    for i in range(10 if tier == "quick" else 60):
+        cfg = dict(kind=["bin", "cont", "cat", "mixed"][i % 4], rows="callable-with-gapped-labels", cols=["rdc", "gvs", "random"][i % 3], leaf="mle",
+                   n=int(rs.choice([30, 80, 160])), d=int(rs.randint(2, 6)), min_rows=int(rs.choice([4, 10, 24])), min_cols=1,
+                   labels=[[0, 2], [0, 2, 5], [1, 4], [-1, 1, 3]][i % 4])
+        def f(cfg=cfg):
+            X, dists, doms = c05.gen_data(rs, cfg["kind"], cfg["n"], cfg["d"], offsets=True)
+            from deeprob.spn.learning.learnspn import learn_spn
+            DECL["doms"] = doms
+            labs = np.array(cfg["labels"])
+            def gapped(data, distributions, domains, random_state, **kw):
+                c = labs[rs.randint(0, len(labs), size=len(data))]
+                c[0] = labs[0]; c[-1] = labs[-1]
+                return c
+            return learn_spn(X, dists, doms, learn_leaf="mle", split_rows=gapped, split_cols=cfg["cols"],
+                             min_rows_slice=cfg["min_rows"], min_cols_slice=1, random_state=int(rs.randint(2 ** 31 - 1)), verbose=False), X.shape[1], None
+        out.append(("learnspn", cfg, f, False))
     for i in range(8 if tier == "quick" else 60):
         cfg = dict(kind=["bin", "cat", "mixed"][i % 3], n=int(rs.choice([20, 80, 200])), d=int(rs.randint(3, 6)), wrapper=["estimator", "classifier"][i % 2],
                    min_rows=int(rs.choice([8, 32])))
